@@ -89,6 +89,42 @@ func (in *Interp) makeExternals() map[string]extFn {
 		}
 		return nil
 	}
+	// ----- sync.Cond: field 1 is L. Wait = register, L.Unlock, sleep until a
+	// Broadcast/Signal that follows the registration, L.Lock -----
+	condL := func(fr *frame, c Value, name string) {
+		l, ok := (*fieldPtr(c, 1)).(Iface)
+		if !ok || l.T == nil {
+			panic(runtimeError("invalid memory address or nil pointer dereference (sync.Cond without L)"))
+		}
+		f := in.findMethod(l.T, name)
+		if f == nil {
+			panic(engineErr{"sync.Cond: L has no method " + name})
+		}
+		in.call(fr, fr.callPos, f, []Value{l.V})
+	}
+	m["(*sync.Cond).Wait"] = func(fr *frame, a []Value) Value {
+		if !in.schedOn() {
+			in.event(Event{Kind: "cond-wait", Obj: in.objName(a[0].(*Value))})
+			panic(pathEnd{"blocked", "sync.Cond.Wait with nobody to wake it (sequential run)"})
+		}
+		obj := in.lockName(a[0].(*Value))
+		in.sev(&SEvent{Kind: "cond-reg", Obj: obj})
+		condL(fr, a[0], "Unlock")
+		in.sev(&SEvent{Kind: "cond-wait", Obj: obj, Mode: "wait"})
+		condL(fr, a[0], "Lock")
+		return nil
+	}
+	condWake := func(fr *frame, a []Value) Value {
+		if in.schedOn() {
+			// (Signal is treated as Broadcast: it may wake any one waiter)
+			in.sev(&SEvent{Kind: "cond-bcast", Obj: in.lockName(a[0].(*Value))})
+		} else {
+			in.event(Event{Kind: "cond-bcast", Obj: in.objName(a[0].(*Value))})
+		}
+		return nil
+	}
+	m["(*sync.Cond).Broadcast"] = condWake
+	m["(*sync.Cond).Signal"] = condWake
 	// ----- sync.Pool: field 1 (local) holds the bag, field 5 is New -----
 	m["(*sync.Pool).Get"] = func(fr *frame, a []Value) Value {
 		if in.schedOn() {
